@@ -87,8 +87,10 @@ type Options struct {
 	// Subscribe, when non-nil, becomes the Subscribe function of every field of the
 	// subscription root.
 	Subscribe func(defType, field string) graphql.FieldResolveFn
-	// OmitTypes are model types not handed to NewSchema (to be appended later).
+	// OmitExtra hands no Types to NewSchema; Omit lists model types that are built but not
+	// handed to NewSchema (to be appended later).
 	OmitExtra bool
+	Omit      []string
 	// NoResolvers leaves Resolve nil (DefaultResolveFn), for introspection-only schemas.
 	NoResolvers bool
 	Extensions  []graphql.Extension
@@ -133,8 +135,8 @@ func New(m *model.Schema, w *ref.World, opt Options) (*Built, error) {
 			b.Types[td.Name] = graphql.NewScalar(graphql.ScalarConfig{
 				Name: td.Name, Description: td.Desc,
 				Serialize: func(v interface{}) interface{} {
-					if s, ok := v.(string); ok {
-						return "S:" + s
+					if s, ok := v.(string); ok && len(s) >= 2 && s[:2] == "P:" {
+						return s[2:]
 					}
 					return nil
 				},
@@ -253,7 +255,9 @@ func New(m *model.Schema, w *ref.World, opt Options) (*Built, error) {
 	// (implementers of interfaces, unused unions, ...) are part of the schema.
 	if !opt.OmitExtra {
 		for _, td := range m.Types {
-			cfg.Types = append(cfg.Types, b.Types[td.Name])
+			if !contains(opt.Omit, td.Name) {
+				cfg.Types = append(cfg.Types, b.Types[td.Name])
+			}
 		}
 	}
 	for _, d := range m.Directives {
